@@ -34,6 +34,19 @@ without blanks only between two atoms (`x-(1)` is a call of `x-`).
 All randomness comes from the `rng` passed in (a Hypothesis `st.randoms` object).
 """
 
+import collections
+
+# An aggregating expression inside order_by(..) / limit(..) makes the Python parser raise
+# KeyError('operator') (the denotation's argument dicts are shared between the rule and
+# the generated @OrderBy annotation and rewritten twice) while the C++ parser accepts:
+# finding D12 of C06; excluded by construction while open.
+AVOID_DEN_AGG = True
+
+# `Max{y}` is accepted but `Max{ y }`, `Max{y\n}` and `Max{(y)}` are rejected by both
+# parsers (the expression of a body-less `Op{..}` is parsed unstripped); with a number,
+# `Max{5 }`, Python accepts (float() strips) and C++ rejects.  Finding D13 (C15, C06).
+AVOID_BODYLESS_AGG_LAYOUT = True
+
 KEYWORDS = {'in', 'is', 'not', 'if', 'then', 'else', 'combine', 'import', 'as', 'distinct',
             'order_by', 'limit', 'couldbe', 'cantbe', 'shouldbe', 'true', 'false', 'null',
             'nil', 'inf', 'nan', 'infinity'}
@@ -118,11 +131,15 @@ def sq_escape(content, rng=None):
 
 
 class Gen(object):
-    def __init__(self, rng, max_depth=3, avoid_den_named=True):
+    def __init__(self, rng, max_depth=2, arraysub=True):
+        self.opt_arraysub = arraysub
         self.r = rng
         self.max_depth = max_depth
         self.strings = []          # contents of generated string literals, in order
         self.feats = set()
+        self.excluded = collections.Counter()
+        self.heads = {}
+        self.distinct_heads = []
         self.reg = ''
 
     # ------------------------------------------------------------ small helpers
@@ -159,6 +176,12 @@ class Gen(object):
         items = list(items)
         items[0] = self._with_pre(items[0], pre)
         return (kind, items)
+
+    def _with_glue(self, item):
+        if isinstance(item, Tok):
+            return item.copy(glue=True)
+        kind, items = item
+        return (kind, [self._with_glue(items[0])] + list(items[1:]))
 
     def after_colon(self, items):
         # `a:-1` would read as `a :- 1`
@@ -238,6 +261,9 @@ class Gen(object):
         if k == 16:
             return self.subscript(d)
         if k == 17:
+            if not self.opt_arraysub:
+                self.excluded['D14_array_subscript'] += 1
+                return [self.T(self.var(), 'var')]
             return self.arraysub(d)
         if k == 18 and d < self.max_depth:
             return self.list_lit(d)
@@ -247,8 +273,8 @@ class Gen(object):
 
     def list_lit(self, d):
         self.feat('list')
-        n = self.pick([0, 1, 2, 3])
-        parts = [[('E', self.expr(d + 1))] for _ in range(n)]
+        n = self.pick([0, 1, 2, 2, 3])
+        parts = [[('E', self.expr(d + 2))] for _ in range(n)]
         return [self.T('[', 'open')] + self.commas(parts) + [self.T(']', 'close')]
 
     def field(self):
@@ -303,8 +329,8 @@ class Gen(object):
     # ------------------------------------------------------------ calls
     def args(self, d, head=False, literal_only=False):
         """record_internal / aggregating_record_internal."""
-        npos = self.pick([0, 1, 1, 2, 2, 3])
-        nnamed = self.pick([0, 0, 0, 1, 2])
+        npos = self.pick([0, 1, 1, 1, 2, 2, 3])
+        nnamed = self.pick([0, 0, 0, 0, 0, 1, 1, 2])
         parts = []
         for _ in range(npos):
             e = self.atom(d + 1) if literal_only else self.expr(d + 1)
@@ -354,14 +380,17 @@ class Gen(object):
     def expr(self, d, noeq=False, operand=False, force=False):
         """A whole expression as an item list (callers wrap it in ('E', ..)).
 
-        noeq: the context splits on '=', operators containing '=' need parentheses.
+        noeq: the context splits on '=' (and, for `v Op= e`, is tried as `&&`, `||`,
+        `==`, ` in ` first): such operators need parentheses.
         operand: we are an operand of an operator; compound forms get parentheses
         (always for unary / negative literals, sometimes for binary).
         force: always parenthesise compound forms."""
         if d >= self.max_depth:
             k = self.r.randrange(10)
-        else:
+        elif d == 0:
             k = self.r.randrange(24)
+        else:
+            k = self.r.randrange(24) if self.p(0.6) else 0
         if k < 10:
             a = self.atom(d)
             if (operand and len(a) == 1 and a[0].kind == 'num' and
@@ -377,14 +406,23 @@ class Gen(object):
         if k == 18:
             return self.implication(d)
         if k == 19:
-            return self.combine_expr(d)
+            # `(combine .. :- ..)` is only usable as an operand: Split() strips the
+            # parentheses of a call argument / list element and exposes its ':-', ','
+            return self.combine_expr(d) if operand else self.ultra_combine(d)
         if k == 20:
             return self.ultra_combine(d)
         if k == 21:
-            return self.is_in_expr(d, operand)
+            return self.is_in_expr(d, operand or noeq)
         if k == 22:
             return self.call(d)
         return self.atom(d)
+
+    def E(self, items):
+        """operand position: parenthesisable unless it is a bare operator expression
+        (`a == b < c` is not `(a == b) < c`)."""
+        if len(items) == 1 and not isinstance(items[0], Tok) and items[0][0] == 'N':
+            return items[0]
+        return ('E', items)
 
     def parens(self, items):
         return [self.T('(', 'open')] + list(items) + [self.T(')', 'close')]
@@ -395,15 +433,20 @@ class Gen(object):
         left = self.expr(d + 1, noeq=noeq, operand=True)
         right = self.expr(d + 1, noeq=noeq, operand=True)
         compact = (self.p(0.15) and self._atomic_end(left) and self._atomic_start(right)
-                   and op not in ('-', '->', '++?') and not self._neg(right))
+                   and not self._neg(right))
         if compact:
             self.feat('compact_operator')
         pre = '' if compact else ' '
-        out = [('E', left), self.T(op, 'op', pre=pre)] + self.sp([('E', right)], pre)
-        need = force or ('=' in op and noeq) or (operand and self.p(0.5))
-        if not need and operand:
+        out = [self.E(left), self.T(op, 'op', pre=pre)] + self.sp([self.E(right)], pre)
+        need = force or (noeq and ('=' in op or op in ('&&', '||'))) or \
+            (operand and self.p(0.5))
+        if need:
+            return self.parens(out)
+        if operand:
             self.feat('unparenthesised_nesting')
-        return self.parens(out) if need else out
+        # a bare operator expression is a whole expression only where nothing else
+        # competes for its operands: as an operand itself it must not be wrapped
+        return [('N', out)]
 
     def _first(self, items):
         x = items[0]
@@ -433,14 +476,27 @@ class Gen(object):
     def unary(self, d, operand):
         op = self.pick(['-', '!'])
         self.feat('unary:' + op)
-        inner = self.expr(d + 1, operand=True, force=True)
-        if op == '-' and len(inner) == 1 and isinstance(inner[0], Tok) and \
-                inner[0].kind == 'num':
-            # `-1` is a number literal, `- 1` / `-(1)` a call: keep away from the
-            # token boundary, use a variable instead
-            inner = [self.T(self.var(), 'var')]
+        # operand of a unary operator: not a number (`-1` is a literal, `- 1` a call),
+        # not `{..}` / `[..]` (`!{` reads as an aggregation named `!`), not a
+        # parenthesised combine (`-(combine .. :- ..)` is a call of `-` whose record
+        # internals contain ':-')
+        inner = self.unary_operand(d, minus=(op == '-'))
         out = [self.T(op, 'op')] + self.sp([('E', inner)], '' if self.p(0.7) else ' ')
         return self.parens(out) if operand else out
+
+    def unary_operand(self, d, minus=False):
+        k = self.r.randrange(5)
+        if k < 2 or d >= self.max_depth:
+            return [self.T(self.var(), 'var')]
+        if k == 2:
+            if minus:
+                # `-Abs(x)` is a call of the predicate `-Abs`, `- Abs(x)` a negation
+                # (call names are glued to their bracket and '-' is a name character)
+                return self.parens(self.call(d + 1, FUNCS))
+            return self.call(d + 1, FUNCS)
+        if k == 3:
+            return self.binary(d + 1, force=True)
+        return self.string_lit()
 
     def implication(self, d):
         self.feat('if_then_else')
@@ -474,10 +530,20 @@ class Gen(object):
     def ultra_combine(self, d):
         self.feat('combine_braces')
         op = self.pick(AGGS)
-        out = [self.T(op, 'name'), self.T('{', 'open', glue=True), ('E', self.expr(d + 1))]
+        out = [self.T(op, 'name'), self.T('{', 'open', glue=True)]
         if self.p(0.8):
-            out += [self.T(':-', 'sep', pre=' ')] + self.sp([('P', self.body(d + 1))])
-        return out + [self.T('}', 'close')]
+            out += [('E', self.expr(d + 1)), self.T(':-', 'sep', pre=' ')] + \
+                self.sp([('P', self.body(d + 1))])
+            return out + [self.T('}', 'close')]
+        self.feat('combine_braces_no_body')
+        e = self.expr(d + 1)
+        if AVOID_BODYLESS_AGG_LAYOUT:
+            # `Max{ y }` and `Max{(y)}` are rejected, `Max{y}` is accepted (finding D13):
+            # only bare comments inside the braces, no redundant parentheses
+            self.excluded['D13_layout_in_bodyless_aggregation'] += 1
+            e = [self._with_glue(e[0])] + e[1:]
+            return out + [('E0agg', e), self.T('}', 'close', glue=True)]
+        return out + [('E', e), self.T('}', 'close')]
 
     def is_in_expr(self, d, operand):
         k = self.r.randrange(3)
@@ -506,20 +572,24 @@ class Gen(object):
                 out += [self.T('|', 'sep', pre='' if compact else ' ')] + \
                     self.sp(pp, '' if compact else ' ')
             return out
-        return self.conj(d, self.pick([1, 1, 2, 2, 3, 4]) if d < self.max_depth else 1)
+        return self.conj(d, self.pick([1, 1, 2, 2, 3] if d == 0 else [1, 1, 2])
+                         if d < self.max_depth else 1)
 
     def conj(self, d, n):
         parts = [[('P', self.conjunct(d))] for _ in range(n)]
         return self.commas(parts)
 
-    def conjunct(self, d):
+    def conjunct(self, d, noimpl=False):
         deep = d >= self.max_depth
         k = self.r.randrange(10 if deep else 26)
+        if k == 19 and noimpl:       # `A => B => C` is not an implication
+            k = 0
         if k < 6:
             self.feat('body_call')
             return self.call(d)
         if k < 9:
-            op = self.pick(CMP_OPS)
+            # not '=': `a + b = c` is tried as a concise combine `lhs Op= value` first
+            op = self.pick(CMP_OPS[:-1])
             self.feat('op:' + op)
             return [('E', self.expr(d + 1, operand=True)), self.T(op, 'op', pre=' ')] + \
                 self.sp([('E', self.expr(d + 1, operand=True))])
@@ -565,8 +635,10 @@ class Gen(object):
                 self.sp([('E', rhs)])
         if k == 19:
             self.feat('prop_implication')
-            a = self.conjunct(d + 1) if self.p(0.7) else self.parens(self.conj(d + 1, 2))
-            b = self.conjunct(d + 1) if self.p(0.7) else self.parens(self.conj(d + 1, 2))
+            a = self.conjunct(d + 1, True) if self.p(0.7) else \
+                self.parens(self.conj(d + 1, 2))
+            b = self.conjunct(d + 1, True) if self.p(0.7) else \
+                self.parens(self.conj(d + 1, 2))
             out = [('P', a), self.T('=>', 'op', pre=' ')] + self.sp([('P', b)])
             return self.parens(out) if self.p(0.5) else out
         if k == 20:
@@ -583,8 +655,8 @@ class Gen(object):
             self.feat('unary:!')
             if self.p(0.3):
                 self.feat('bang_tilde')
-                return [self.T('!', 'op'), self.T('~', 'op')] + self.call(d)
-            return [self.T('!', 'op')] + [('E', self.expr(d + 1, operand=True, force=True))]
+                return [self.T('!~', 'op')] + self.call(d, PREDS)
+            return [self.T('!', 'op')] + [('E', self.unary_operand(d))]
         if k == 23:
             self.feat('body_table_path')
             name = self.pick(PATHS)
@@ -607,12 +679,25 @@ class Gen(object):
         if self.p(0.15):
             self.feat('order_by')
             self.reg = 'den'
-            n = self.pick([1, 1, 2])
-            parts = [[('E', self.pick([self.string_lit, lambda: [self.T(self.var(), 'var')],
-                                       lambda: self.expr(2)])())] for _ in range(n)]
-            if n > 1:
-                # `order_by((x), y)`: see DEN_PAREN in lv/noise.py
-                parts[0] = [('E0', parts[0][0][1])]
+            n = self.pick([1, 1, 2, 3])
+            parts = []
+            for i in range(n):
+                k = self.r.randrange(8)
+                if k < 3:
+                    e = self.string_lit()
+                elif k < 5 or i == 0:
+                    # the first argument never starts with '(' (see noise.AVOID_DEN_PAREN)
+                    e = [self.T(self.var(), 'var')]
+                elif k == 5:
+                    e = self.binary(2)
+                elif k == 6:
+                    e = self.call(2, FUNCS)
+                elif AVOID_DEN_AGG:
+                    self.excluded['D12_aggregation_in_denotation'] += 1
+                    e = [self.T(self.var(), 'var')]
+                else:
+                    e = self.ultra_combine(2)
+                parts.append([('E0den' if i == 0 and n > 1 else 'E', e)])
             out += [self.T('order_by', 'den', pre=' '), self.T('(', 'open', glue=True)] + \
                 self.commas(parts) + [self.T(')', 'close')]
             self.reg = ''
@@ -630,10 +715,8 @@ class Gen(object):
         return out
 
     def head(self, d, literal_only=False):
-        name = self.pick(PREDS)
         a, agg = self.args(d, head=not literal_only, literal_only=literal_only)
-        out = [self.T(name, 'name'), self.T('(', 'open', glue=True)] + a + \
-            [self.T(')', 'close')]
+        out = [None, self.T('(', 'open', glue=True)] + a + [self.T(')', 'close')]
         k = self.r.randrange(10)
         if k < 2:
             self.feat('head_value')
@@ -645,11 +728,28 @@ class Gen(object):
             out += [self.T(self.pick(AGG_ASSIGN), 'aggop', pre=' ')] + \
                 self.sp([('E', self.expr(d + 1, noeq=True))])
         out += self.denotations(agg)
+        # several rules for one predicate must agree on `distinct` and on the aggregation
+        # signature: a predicate is reused only if neither definition is distinct
+        dist = any(isinstance(t, Tok) and (t.text == 'distinct' or t.kind == 'aggop')
+                   for t in out[1:])
+        name = self.pick(PREDS)
+        if name in self.heads and (dist or self.heads[name]):
+            name = 'H%d' % len(self.heads)
+        self.heads[name] = dist or self.heads.get(name, False)
+        out[0] = self.T(name, 'name')
+        if dist and not literal_only:
+            self.distinct_heads.append(out)
         return out
 
     def rule(self):
         self.feat('rule')
-        return self.head(0) + [self.T(':-', 'sep', pre=' ')] + \
+        if self.distinct_heads and self.p(0.25):
+            # a second body for an aggregating predicate (multi-body aggregation rewrite)
+            self.feat('multi_body_aggregation')
+            h = list(self.pick(self.distinct_heads))
+        else:
+            h = self.head(0)
+        return h + [self.T(':-', 'sep', pre=' ')] + \
             self.sp([('P', self.body(0, top=True))])
 
     def fact(self):
@@ -698,7 +798,11 @@ class Gen(object):
     def function_rule(self):
         self.feat('function_rule')
         a, _ = self.args(1, literal_only=self.p(0.5))
-        out = [self.T(self.pick(FUNCS[:2] + PREDS[:3]), 'name'),
+        name = self.pick(FUNCS[:2] + PREDS[:3])
+        if name in self.heads:
+            name = 'H%d' % len(self.heads)
+        self.heads[name] = True
+        out = [self.T(name, 'name'),
                self.T('(', 'open', glue=True)] + a + [self.T(')', 'close')]
         out += [self.T('-->', 'sep', pre=' ')] + self.sp([('E', self.expr(1, noeq=True))])
         if self.p(0.3):
@@ -717,13 +821,14 @@ class Gen(object):
             return self.annotation()
         return self.function_rule()
 
-    def program(self, nmin=1, nmax=5):
+    def program(self, nmin=1, nmax=3):
         n = self.r.randrange(nmin, nmax + 1)
         return [self.statement() for _ in range(n)]
 
 
 def generate(rng, **kw):
-    """-> (statements: list of item lists, strings: list of str, feats: set)."""
+    """-> (statements: list of item lists, strings: list of str, feats: set,
+    excluded: Counter of by-construction exclusions)."""
     g = Gen(rng, **kw)
     stmts = g.program()
-    return stmts, g.strings, g.feats
+    return stmts, g.strings, g.feats, g.excluded
